@@ -93,13 +93,20 @@ def run_detect(case):
         p = os.path.join(d, "disc.cue")
         with open(p, "w") as f:
             f.write(Q.cue_text("disc.bin", tracks))
-        st, obs = guarded(lambda: type(tree.open_image(p)).__name__, 30.0)
+        def go():
+            img = tree.open_image(p)
+            return type(img).__name__, tree.ls(img, "")
+        st, obs = guarded(go, 30.0)
+        st_b, base = guarded(lambda: tree.ls(tree.open_image(os.path.join(d, "disc.bin")), ""), 30.0)
     want = "CompactDiskAudioImage" if all(m.upper() == "AUDIO" for m in case["modes"]) else "AkaiImageParser"
     if st != "ok":
         return False, "detect-" + ("raised:" + exc_sig(obs) if st == "exc" else "hang"), {"observed": repr(obs)[:200]}
-    if obs != want:
-        return False, "detect-class", {"modes": case["modes"], "expected": want, "observed": obs}
-    return True, "detect:" + obs, None
+    if obs[0] != want:
+        return False, "detect-class", {"modes": case["modes"], "expected": want, "observed": obs[0]}
+    if case["data"] and (st_b != "ok" or obs[1] != base or "A:" not in obs[1]):
+        # a sheet with a data track is the sampler image of its bin file: same root listing as the bin opened directly
+        return False, "detect-not-the-bin-image", {"modes": case["modes"], "bin_listing": repr(base)[:150], "cue_listing": obs[1][:150]}
+    return True, "detect:" + obs[0], None
 
 
 class Check(CheckBase):
